@@ -371,13 +371,30 @@ def client_constants(repo):
         raise Untranslatable(where + ": could not identify every query constant (%r)" % consts)
     # format strings of utils.py
     usrc = py2coq.Source(repo, UTILS)
-    fmts = {}
-    for q_, meth in (("http_date", "strftime"), ("parse_http_date", "strptime")):
-        f = usrc.find(q_)
-        found = [n for n in ast.walk(f) if isinstance(n, ast.Call) and isinstance(n.func, ast.Attribute) and n.func.attr == meth]
-        if len(found) != 1:
-            raise Untranslatable("%s:%s: expected exactly one %s call" % (UTILS, q_, meth))
-        fmts[q_] = _const_str(found[0].args[-1], "%s:%s format" % (UTILS, q_))
+    # http_date:  utc = dt.astimezone(pytz.utc)
+    #             return utc.strftime(<A>) + <"%04d"> % utc.year + utc.strftime(<B>)
+    f = usrc.find("http_date")
+    hb = [st for st in f.body if not (isinstance(st, ast.Expr) and isinstance(st.value, ast.Constant))]
+    whereh = UTILS + ":http_date"
+    if not (len(hb) == 2 and isinstance(hb[0], ast.Assign) and ast.unparse(hb[0]) == "utc = dt.astimezone(pytz.utc)"
+            and isinstance(hb[1], ast.Return)):
+        raise Untranslatable(whereh + ": body is not `utc = dt.astimezone(pytz.utc); return <three-part text>`")
+    r = hb[1].value
+    ok = (isinstance(r, ast.BinOp) and isinstance(r.op, ast.Add) and isinstance(r.left, ast.BinOp)
+          and isinstance(r.left.op, ast.Add) and isinstance(r.left.right, ast.BinOp) and isinstance(r.left.right.op, ast.Mod))
+    if ok:
+        a, yfmt, b = r.left.left, r.left.right, r.right
+        ok = all(isinstance(c, ast.Call) and ast.unparse(c.func) == "utc.strftime" and len(c.args) == 1 and not c.keywords
+                 for c in (a, b)) and ast.unparse(yfmt.right) == "utc.year"
+    if not ok:
+        raise Untranslatable(whereh + ": return value is not utc.strftime(A) + FMT % utc.year + utc.strftime(B)")
+    fmts = dict(pre=_const_str(a.args[0], whereh + " first format"), year=_const_str(yfmt.left, whereh + " year format"),
+                suf=_const_str(b.args[0], whereh + " second format"))
+    f = usrc.find("parse_http_date")
+    found = [n for n in ast.walk(f) if isinstance(n, ast.Call) and isinstance(n.func, ast.Attribute) and n.func.attr == "strptime"]
+    if len(found) != 1:
+        raise Untranslatable("%s:parse_http_date: expected exactly one strptime call" % UTILS)
+    fmts["parse"] = _const_str(found[0].args[-1], "%s:parse_http_date format" % UTILS)
     lines = ["From Coq Require Import ZArith List String.\nImport ListNotations.\nOpen Scope string_scope.\n",
              "(* literals of DataClient.get_sessions and of utils.http_date / parse_http_date *)",
              "Definition K_valid_sites : list string := [%s]." % "; ".join(coq_str(x, "site") for x in sites),
@@ -392,8 +409,11 @@ def client_constants(repo):
              "Definition K_arg_max_results : string := %s." % coq_str(consts["maxres"], "arg"),
              "Definition K_query_mark : string := %s." % coq_str(consts["qmark"], "qmark"),
              "Definition K_arg_sep : string := %s." % coq_str(consts["sep"], "sep"),
-             "Definition K_strftime_format : string := %s." % coq_str(fmts["http_date"], "format"),
-             "Definition K_strptime_format : string := %s." % coq_str(fmts["parse_http_date"], "format"), ""]
+             "(* http_date = utc.strftime(K_strftime_prefix) + K_year_format % utc.year + utc.strftime(K_strftime_suffix) *)",
+             "Definition K_strftime_prefix : string := %s." % coq_str(fmts["pre"], "format"),
+             "Definition K_year_format : string := %s." % coq_str(fmts["year"], "format"),
+             "Definition K_strftime_suffix : string := %s." % coq_str(fmts["suf"], "format"),
+             "Definition K_strptime_format : string := %s." % coq_str(fmts["parse"], "format"), ""]
     return "\n".join(lines)
 
 
